@@ -12,6 +12,7 @@ HERE = os.path.dirname(os.path.dirname(os.path.abspath(__file__)))
 sys.path.insert(0, os.path.join(HERE, "rules"))
 from lib.context import Context
 from lib import nf
+os.environ["VERIF_NO_SUBST"] = "1"
 TSV = os.path.join(HERE, "selftest", "equivalent", "accepted.tsv")
 TAB = os.path.join(HERE, "spec", "equivalent_forms.json")
 
@@ -23,6 +24,27 @@ def tree_of(name):
     d = tempfile.mkdtemp(prefix="eqv.")
     subprocess.check_call([os.path.join(HERE, "tools", "scratch.sh"), os.path.join(HERE, "selftest", "equivalent", name + ".patch"), d], stdout=subprocess.DEVNULL)
     return d, True
+
+
+_BASE = [None]
+
+
+def baseline_facts():
+    """facts of /repo's HEAD commit (not the working tree): the shapes the rules were written against"""
+    if _BASE[0] is None:
+        d = tempfile.mkdtemp(prefix="eqvbase.")
+        subprocess.check_call("git -C /repo archive HEAD | tar -x -C %s" % d, shell=True)
+        _BASE[0] = (Context(d).F, d)
+    return _BASE[0][0]
+
+
+def store_baseline(path):
+    from lib import subst
+    F0 = baseline_facts()
+    fam = subst.family(F0.doc, path)
+    if not fam:
+        sys.exit("function %s does not exist at /repo HEAD" % path)
+    subst.store(path, fam)
 
 
 def rows():
@@ -48,6 +70,7 @@ def build(rs):
                 ent = tab.setdefault(path, [])
                 if not any(e["hash"] == h for e in ent):
                     ent.append({"hash": h, "from": name, "why": why, "form": form})
+                store_baseline(path)
                 print("accepted %s %s (%s)" % (path, h, name))
         finally:
             if tmp:
@@ -57,6 +80,8 @@ def build(rs):
 
 if sys.argv[1] == "--rebuild":
     build(rows())
+    if _BASE[0]:
+        shutil.rmtree(_BASE[0][1], ignore_errors=True)
 else:
     name, path, why = sys.argv[1], sys.argv[2], " ".join(sys.argv[3:])
     rs = rows()
@@ -76,6 +101,9 @@ else:
     if not any(e["hash"] == h for e in ent):
         ent.append({"hash": h, "from": name, "why": why, "form": form})
     json.dump(tab, open(TAB, "w"), indent=1, sort_keys=True)
+    store_baseline(path)
     print("accepted %s %s" % (path, h))
+    if _BASE[0]:
+        shutil.rmtree(_BASE[0][1], ignore_errors=True)
     if tmp:
         shutil.rmtree(d, ignore_errors=True)
